@@ -30,7 +30,7 @@ func init() {
 			if tier == "quick" {
 				return 1920
 			}
-			return 9600
+			return 28800
 		},
 		Run: runC15,
 		Required: []string{"roundtrip.plain", "roundtrip.yaml", "roundtrip.yaml_modular", "roundtrip.organism_binary", "roundtrip.organism_binary_batched", "roundtrip.organism_gob",
